@@ -135,7 +135,15 @@ def check(ck):
             for (cf, cn, cc) in callers:
                 a = cc.args[i] if i < len(cc.args) else None
                 if a is None:
-                    fresh_everywhere = False
+                    a = next((k.value for k in cc.keywords if k.arg == p), None)
+                if a is None:
+                    # not supplied at this site: the helper gets its declared default - no data of anybody when that is a constant
+                    nd_ = len(hf.node.args.defaults)
+                    j_ = i - (len(hf.node.args.args) - nd_)
+                    dflt_ = hf.node.args.defaults[j_] if 0 <= j_ < nd_ else None
+                    if not (isinstance(dflt_, ast.Constant) and not any(isinstance(x, ast.Starred) for x in cc.args) and
+                            not any(k.arg is None for k in cc.keywords)):
+                        fresh_everywhere = False
                     continue
                 ta = prov.origin(cfg_of(cf), cn, a)
                 for alt in prov.alts(ta):
